@@ -9,8 +9,17 @@
 //              long double: unity below, slope 1/R (0) above, continuous monotone knee (0.01 dB grid at the edges);
 //          (D) AGC: constant-envelope input reaches the target power within 1 % when the required gain is below
 //              max_gain; gain <= max_gain always.
+//          (E) AGC on ARBITRARY signals (the property's "noise, bursts, steps, silence"): real and complex, averaging
+//              lengths 1..1000 (1, 2, 3, 7, 333, 1000 forced), amplitudes over 80 dB at the absolute scale classes
+//              1e-300 .. 1e100, bursts followed by exact silence longer than the window, silence first, alternating
+//              burst / silence, clicks, +-0, denormals, mixtures; every gain finite, > 0 and <= max_gain,
+//              out = x*gain, arbitrary framing and copies made mid-stream (copy-ctor, copy-assign, vector(n, proto))
+//              reproduce the single-call result bit for bit, and after the arbitrary part a constant-envelope tail
+//              is driven to the target again.  The same signal classes go through Compressor / Limiter / NoiseGate
+//              (gain range, ceiling, smoothing law, framing, copies).
 #include "common.hpp"
 #include <algorithm>
+#include <type_traits>
 using namespace dsplib;
 typedef long double LD;
 static vh::Out out;
@@ -293,49 +302,57 @@ static void check_dyn(const char* who, int fs, double T, LD s, double W, double 
     }
 }
 
+struct ArbStats;
+template<class Proc, class T, class Make, class Res>
+static void framing_and_copies(vh::Rng& r, const std::string& who, Make make, const base_array<T>& x, const Res& whole, const std::string& json, ArbStats& st);
+static ArbStats& dyn_arb();
+
+// one processor on the signal `x`: per-sample oracle on the result of ONE process() call, then the same signal in
+// random frames with copies made mid-stream must reproduce it bit for bit
 template<class P, class Make>
-static void arbitrary_dyn(vh::Rng& r, const char* who, const P& p, LD s, Make make, int n, int kind, DynStats& st, int caseno) {
-    const arr_real x = gen_signal(r, n, kind);
-    const auto frames = split_frames(r, x, r.range(1, 5));
-    const std::string json = js(p) + ",\"signal\":\"" + SIG_NAME[kind] + "\",\"n\":" + std::to_string(n) + ",\"case\":" + std::to_string(caseno);
+static void arbitrary_dyn_x(vh::Rng& r, const char* who, const P& p, LD s, Make make, const arr_real& x, const std::string& signame, DynStats& st, int caseno) {
+    const std::string json = js(p) + ",\"signal\":\"" + signame + "\",\"n\":" + std::to_string(x.size()) + ",\"case\":" + std::to_string(caseno);
     vh::set_current(std::string("C20:crash:") + who, "{" + json + "}");
     auto proc = make();
     LD gs_prev = 0;
-    int base = 0;
-    for (auto& f : frames) {
-        auto res = proc.process(f);
-        if (res.gain.size() != f.size() || res.out.size() != f.size()) { out.fail(std::string("C20:result-size:") + who, "{" + json + "}"); return; }
-        check_dyn(who, p.fs, p.T, s, p.W, p.ta, p.tr, f, res.gain, res.out, gs_prev, json, st, base);
-        base += f.size();
-    }
+    const auto res = proc.process(x);
+    if (res.gain.size() != x.size() || res.out.size() != x.size()) { out.fail(std::string("C20:result-size:") + who, "{" + json + "}"); return; }
+    check_dyn(who, p.fs, p.T, s, p.W, p.ta, p.tr, x, res.gain, res.out, gs_prev, json, st, 0);
+    framing_and_copies<decltype(make())>(r, who, make, x, res, json, dyn_arb());
     vh::clear_current();
-    out.stat(std::string("oracle_signal_") + SIG_NAME[kind]);
+    out.stat(std::string("oracle_signal_") + signame);
+}
+template<class P, class Make>
+static void arbitrary_dyn(vh::Rng& r, const char* who, const P& p, LD s, Make make, int n, int kind, DynStats& st, int caseno) {
+    arbitrary_dyn_x(r, who, p, s, make, gen_signal(r, n, kind), SIG_NAME[kind], st, caseno);
 }
 
-static void arbitrary_gate(vh::Rng& r, const GP& p, int n, int kind, int caseno) {
-    const arr_real x = gen_signal(r, n, kind);
-    const auto frames = split_frames(r, x, r.range(1, 5));
-    const std::string json = js(p) + ",\"signal\":\"" + SIG_NAME[kind] + "\",\"n\":" + std::to_string(n) + ",\"case\":" + std::to_string(caseno);
+static void arbitrary_gate_x(vh::Rng& r, const GP& p, const arr_real& x, const std::string& signame, int caseno) {
+    const std::string json = js(p) + ",\"signal\":\"" + signame + "\",\"n\":" + std::to_string(x.size()) + ",\"case\":" + std::to_string(caseno);
     vh::set_current("C20:crash:noisegate", "{" + json + "}");
-    NoiseGate proc(p.fs, p.T, p.ta, p.tr, p.th);
-    int base = 0;
+    auto make = [&] { return NoiseGate(p.fs, p.T, p.ta, p.tr, p.th); };
+    NoiseGate proc = make();
     long long open = 0, closed = 0, moving = 0;
-    for (auto& f : frames) {
-        auto res = proc.process(f);
-        for (int i = 0; i < f.size(); ++i) {
-            out.n_oracle++;
-            const double g = res.gain[i];
-            const std::string at = "{" + json + ",\"index\":" + std::to_string(base + i) + ",\"x\":" + vh::jnum(f[i]) + ",\"gain\":" + vh::jnum(g) + "}";
+    const auto res = proc.process(x);
+    if (res.gain.size() != x.size() || res.out.size() != x.size()) { out.fail("C20:result-size:noisegate", "{" + json + "}"); return; }
+    for (int i = 0; i < x.size(); ++i) {
+        out.n_oracle++;
+        const double g = res.gain[i];
+        if (!(g >= 0 && LD(g) <= 1 + TOL_REL) || !(res.out[i] == x[i] * g)) {
+            const std::string at = "{" + json + ",\"index\":" + std::to_string(i) + ",\"x\":" + vh::jnum(x[i]) + ",\"gain\":" + vh::jnum(g) + "}";
             if (!(g >= 0 && LD(g) <= 1 + TOL_REL)) out.fail("C20:gain-range:noisegate", at);
-            if (!(res.out[i] == f[i] * g)) out.fail("C20:out-not-x-times-gain:noisegate", at);
-            if (g == 1) ++open; else if (g == 0) ++closed; else ++moving;
+            if (!(res.out[i] == x[i] * g)) out.fail("C20:out-not-x-times-gain:noisegate", at);
         }
-        base += f.size();
+        if (g == 1) ++open; else if (g == 0) ++closed; else ++moving;
     }
+    framing_and_copies<NoiseGate>(r, "noisegate", make, x, res, json, dyn_arb());
     vh::clear_current();
     out.stat("gate_samples_open", open);
     out.stat("gate_samples_closed", closed);
     out.stat("gate_samples_moving", moving);
+}
+static void arbitrary_gate(vh::Rng& r, const GP& p, int n, int kind, int caseno) {
+    arbitrary_gate_x(r, p, gen_signal(r, n, kind), SIG_NAME[kind], caseno);
 }
 
 // (B') 10 % .. 90 % rise / fall time of the smoothed gain on a level step = attack / release time
@@ -504,6 +521,320 @@ static void agc_case(vh::Rng& r, const AP& p, double amp, bool cplx, AgcStats& s
     } else out.stat("agc_borderline_skipped");
 }
 
+// ------------------------------------------------------------------------------------ (E) arbitrary signals for the AGC
+// (and, as real signals, for the other three processors)
+enum { AK_NOISE, AK_BURST_SILENCE, AK_SILENCE_FIRST, AK_ALTERNATE, AK_STEPS, AK_SIGNED_ZERO, AK_DENORMAL, AK_CLICKS, AK_MIX, AK_KINDS };
+static const char* AK_NAME[] = {"noise", "burst-then-silence", "silence-first", "alternate-burst-silence", "steps", "signed-zeros", "denormals", "clicks", "mix"};
+static const double SCALES[] = {1.0, 1e-300, 1e-17, 1e-8, 1e8, 1e100};   // absolute scale classes (lesson 1)
+static const int NSCALES = 6;
+static const int FORCED_LEN[] = {1, 2, 3, 7, 333, 1000};
+
+static double dbamp(double db) { return std::pow(10.0, db / 20); }
+
+// one burst of `len` samples at amplitude `lvl` starting at i (three textures)
+static void burst(vh::Rng& r, arr_real& x, int& i, int b, int len, double lvl) {
+    const int tex = r.range(0, 3);
+    for (int k = 0; k < len && i < b; ++k, ++i) {
+        if (tex == 0) x[i] = lvl * r.gauss();                      // noise (e.g. randn * 3.3)
+        else if (tex == 1) x[i] = r.coin() ? lvl : -lvl;           // constant envelope
+        else if (tex == 2) x[i] = lvl * dbamp(-40 * r.unit()) * r.sym();   // very uneven magnitudes: rounding residue in a recurrent sum
+        else x[i] = lvl * std::sin(0.37 * k + 0.1);
+    }
+}
+static void zeros(vh::Rng& r, arr_real& x, int& i, int b, int len) {
+    const int how = r.range(0, 5);   // mostly +0, sometimes -0 or mixed signs
+    for (int k = 0; k < len && i < b; ++k, ++i) x[i] = how == 0 ? -0.0 : how == 1 ? (r.coin() ? 0.0 : -0.0) : 0.0;
+}
+// a silence run in relation to the averaging length: shorter, equal, one more, several windows
+static int silence_len(vh::Rng& r, int navg, bool longer) {
+    const int k = r.range(0, 5);
+    if (longer) return k == 0 ? navg + 1 : k == 1 ? 2 * navg : k == 2 ? 2 * navg + 1 : navg + 1 + r.range(0, 3 * navg + 60);
+    return k == 0 ? navg : k == 1 ? navg + 1 : k == 2 ? std::max(1, navg - 1) : r.range(1, 2 * navg + 2);
+}
+
+static void fill_agc(vh::Rng& r, arr_real& x, int a, int b, int kind, int navg, double sc) {
+    int i = a;
+    switch (kind) {
+    case AK_NOISE: {
+        const double lvl = sc * dbamp(-60 + 80 * r.unit());
+        for (; i < b; ++i) x[i] = lvl * r.gauss();
+    } break;
+    case AK_BURST_SILENCE:   // loud stretch, then exact zeros for longer than the averaging length, then signal again
+        while (i < b) {
+            const int len = r.range(0, 3) == 0 ? r.range(1, 5000) : r.range(1, 3 * navg + 8);
+            burst(r, x, i, b, len, sc * dbamp(-10 + 30 * r.unit()));
+            zeros(r, x, i, b, silence_len(r, navg, true));
+        }
+        break;
+    case AK_SILENCE_FIRST:
+        zeros(r, x, i, b, silence_len(r, navg, true) + r.range(0, 500));
+        fill_agc(r, x, i, b, r.coin() ? AK_BURST_SILENCE : AK_NOISE, navg, sc);
+        break;
+    case AK_ALTERNATE: {     // burst / silence, each shorter or longer than the window
+        const double lvl = sc * dbamp(-20 + 40 * r.unit());
+        while (i < b) {
+            burst(r, x, i, b, silence_len(r, navg, false), r.coin() ? lvl : sc * dbamp(-60 + 80 * r.unit()));
+            zeros(r, x, i, b, silence_len(r, navg, r.coin()));
+        }
+    } break;
+    case AK_STEPS:           // constant-envelope level steps over 80 dB, with an occasional drop to exact silence
+        while (i < b) {
+            const int len = r.range(1, 5000);
+            if (r.range(0, 5) == 0) { zeros(r, x, i, b, len); continue; }
+            const double lvl = sc * dbamp(-60 + 80 * r.unit());
+            const bool alt = r.coin();
+            for (int k = 0; k < len && i < b; ++k, ++i) x[i] = (alt && (k & 1)) ? -lvl : lvl;
+        }
+        break;
+    case AK_SIGNED_ZERO:     // runs of -0 / +0 / alternating, between loud runs and single samples
+        while (i < b) {
+            const int how = r.range(0, 2), len = r.range(1, 2 * navg + 5);
+            for (int k = 0; k < len && i < b; ++k, ++i) x[i] = how == 0 ? -0.0 : how == 1 ? 0.0 : ((k & 1) ? -0.0 : 0.0);
+            if (r.coin()) burst(r, x, i, b, r.range(1, navg + 3), sc * dbamp(-60 + 80 * r.unit()));
+        }
+        break;
+    case AK_DENORMAL: {      // denormals / values whose square underflows, next to loud bursts
+        static const double tiny[] = {4.9406564584124654e-324, 2.2250738585072014e-308, 1e-310, 1.4916681462400413e-154, 1.5e-154, 1e-162, 3e-162, 1e-200};
+        while (i < b) {
+            const int len = r.range(1, 2 * navg + 20);
+            for (int k = 0; k < len && i < b; ++k, ++i) x[i] = tiny[r.range(0, 7)] * double(r.range(-3, 3));
+            if (r.range(0, 2) == 0) burst(r, x, i, b, r.range(1, navg + 3), sc * dbamp(-60 + 80 * r.unit()));
+        }
+    } break;
+    case AK_CLICKS:          // isolated samples of wildly different size in exact silence
+        for (; i < b; ++i) x[i] = 0.0;
+        for (i = a + r.range(0, 3); i < b; i += r.range(1, 3 * navg + 1)) x[i] = sc * dbamp(-60 + 80 * r.unit()) * (r.coin() ? 1 : -1);
+        break;
+    default:
+        while (i < b) {
+            const int len = std::min(b - i, r.range(1, 20000));
+            fill_agc(r, x, i, i + len, r.range(0, AK_MIX - 1), navg, r.range(0, 3) == 0 ? SCALES[r.range(0, NSCALES - 1)] : sc);
+            i += len;
+        }
+    }
+}
+// complex version: random phases, with (lesson 8) one component alone at a special value (0, -0) now and then
+static arr_cmplx to_cmplx(vh::Rng& r, const arr_real& m) {
+    arr_cmplx z(m.size());
+    for (int i = 0; i < m.size(); ++i) {
+        const int k = r.range(0, 15);
+        if (k == 0) z[i] = cmplx_t{m[i], 0.0};
+        else if (k == 1) z[i] = cmplx_t{0.0, m[i]};
+        else if (k == 2) z[i] = cmplx_t{m[i], -0.0};
+        else if (k == 3) z[i] = cmplx_t{-0.0, m[i]};
+        else { const double ph = 6.283185307179586 * r.unit(); z[i] = cmplx_t{m[i] * std::cos(ph), m[i] * std::sin(ph)}; }
+    }
+    return z;
+}
+
+static bool same_bits(double a, double b) { return std::memcmp(&a, &b, 8) == 0; }
+static bool same_bits(const cmplx_t& a, const cmplx_t& b) { return same_bits(a.re, b.re) && same_bits(a.im, b.im); }
+static double pw(double v) { return v * v; }
+static double pw(const cmplx_t& v) { return v.re * v.re + v.im * v.im; }
+static LD pwl(double v) { return LD(v) * v; }
+static LD pwl(const cmplx_t& v) { return LD(v.re) * v.re + LD(v.im) * v.im; }
+static std::string jv(double v) { return vh::jnum(v); }
+static std::string jv(const cmplx_t& v) { return "[" + vh::jnum(v.re) + "," + vh::jnum(v.im) + "]"; }
+static bool is_x_times_gain(double o, double x, double g) { return o == x * g; }
+static bool is_x_times_gain(const cmplx_t& o, const cmplx_t& x, double g) { return o.re == x.re * g && o.im == x.im * g; }
+
+template<class T>
+static std::vector<base_array<T>> cut_frames(vh::Rng& r, const base_array<T>& x, int nf) {
+    std::vector<int> cut{0, x.size()};
+    for (int k = 1; k < nf; ++k) cut.push_back(r.range(0, 3) == 0 ? cut[r.range(0, int(cut.size()) - 1)] : r.range(0, x.size()));   // some empty frames
+    std::sort(cut.begin(), cut.end());
+    std::vector<base_array<T>> fr;
+    for (size_t k = 0; k + 1 < cut.size(); ++k) {
+        base_array<T> f(cut[k + 1] - cut[k]);
+        for (int i = cut[k]; i < cut[k + 1]; ++i) f[i - cut[k]] = x[i];
+        fr.push_back(f);
+    }
+    return fr;
+}
+
+// the recurrence of lib/ma-filter.h, for the STATISTICS only (how often the scenario class of the repaired defect -
+// a power estimate below zero - is actually reached by the generators)
+struct MaMirror {
+    std::vector<double> buf; int n, pos = 0; double acc = 0;
+    explicit MaMirror(int n_) : buf(n_, 0.0), n(n_) {}
+    double step(double x) {
+        acc -= buf[pos]; acc += x; buf[pos] = x;
+        if (++pos == n) { pos = 0; acc = 0; for (double v : buf) acc += v; }
+        return acc / n;
+    }
+};
+
+struct ArbStats {
+    long long cases = 0, samples = 0, ma_negative = 0, ma_below_minus_eps = 0, ma_zero = 0, at_cap = 0, level_checks = 0, copies = 0, frames = 0, big_frames = 0;
+    LD worst_gain_ratio = 0, worst_level_err = 0; double min_gain = 1e300, max_gain = 0;
+};
+
+static ArbStats& dyn_arb() { static ArbStats s; return s; }
+
+// Framing and copies: `x` cut into frames; at a random frame boundary the object is copy-constructed, copy-assigned over a
+// USED object, and replicated by vector(n, proto); all four continue with the same frames in interleaved order.
+// Every one of them must reproduce the single-call result (gain AND out) bit for bit.
+template<class Proc, class T, class Make, class Res>
+static void framing_and_copies(vh::Rng& r, const std::string& who, Make make, const base_array<T>& x, const Res& whole, const std::string& json, ArbStats& st) {
+    const auto frames = cut_frames(r, x, r.range(1, 6));
+    const int kc = r.range(0, int(frames.size()) - 1);
+    Proc a = make();
+    std::vector<Proc> cp;
+    int base = 0, copied_at = -1;
+    auto cmp = [&](const Res& res, int b0, const base_array<T>& f, const char* key, const char* which) {
+        if (res.gain.size() != f.size() || res.out.size() != f.size()) { out.fail("C20:result-size:" + who, "{" + json + "}"); return; }
+        for (int i = 0; i < f.size(); ++i) {
+            out.n_oracle++;
+            if (!(same_bits(res.gain[i], whole.gain[b0 + i]) && same_bits(res.out[i], whole.out[b0 + i]))) {
+                out.fail(std::string(key) + ":" + who, "{" + json + ",\"object\":\"" + which + "\",\"index\":" + std::to_string(b0 + i) + ",\"copied_at\":" + std::to_string(copied_at) +
+                         ",\"gain\":" + vh::jnum(res.gain[i]) + ",\"gain_single_call\":" + vh::jnum(whole.gain[b0 + i]) + "}");
+                return;
+            }
+        }
+    };
+    for (size_t k = 0; k < frames.size(); ++k) {
+        if (int(k) == kc) {
+            cp.push_back(Proc(a));                              // copy-construct
+            if constexpr (std::is_copy_assignable<Proc>::value) {   // (Compressor / Limiter have const members: no assignment)
+                Proc used = make();
+                if (x.size() > 0) { base_array<T> junk(std::min(x.size(), 37)); for (int i = 0; i < junk.size(); ++i) junk[i] = x[x.size() - 1 - i]; used.process(junk); }
+                used = a;                                       // copy-assign over a USED object
+                cp.push_back(used);
+                Proc& self = cp[0]; Proc* alias = &cp[0]; self = *alias;   // self-assignment keeps the state
+            } else cp.push_back(Proc(cp[0]));                   // copy of a copy
+            { std::vector<Proc> v(2, a); cp.push_back(v[0]); cp.push_back(v[1]); }   // vector(n, proto), then copies of those
+            st.copies += 4;
+            copied_at = base;
+        }
+        const auto& f = frames[k];
+        cmp(a.process(f), base, f, "C20:framing", "original");
+        for (size_t c = 0; c < cp.size(); ++c) cmp(cp[c].process(f), base, f, "C20:copy-state", c == 0 ? "copy-constructed" : c == 1 ? "copy-assigned" : "vector(n,proto)");
+        base += f.size();
+        st.frames++;
+        if (f.size() > 131072) st.big_frames++;
+    }
+}
+
+// (E) one AGC object on an arbitrary signal `x` whose last `tail` samples are a constant envelope of amplitude `tail_amp`
+template<class T>
+static void agc_arbitrary(vh::Rng& r, const AP& p, const base_array<T>& x, int tail, double tail_amp, const std::string& json0, ArbStats& st) {
+    const bool cplx = sizeof(T) != sizeof(double);
+    const std::string json = js(p) + "," + json0 + ",\"complex\":" + (cplx ? "true" : "false") + ",\"n\":" + std::to_string(x.size());
+    const LD gmax = powl(10.0L, LD(p.mg) / 20);
+    vh::set_current("C20:crash:agc", "{" + json + "}");
+    Agc whole_obj(p.target, p.mg, p.n, p.trise, p.tfall);
+    const auto whole = whole_obj.process(x);      // ONE call for the whole signal (frames above 2^17 in some cases)
+    const int n = x.size();
+    st.cases++;
+    if (whole.gain.size() != n || whole.out.size() != n) { out.fail("C20:result-size:agc", "{" + json + "}"); vh::clear_current(); return; }
+    MaMirror mm(p.n);
+    bool bad_nf = false, bad_max = false, bad_out = false;
+    int last_nonzero = -1;
+    for (int i = 0; i < n; ++i) {
+        out.n_oracle++;
+        const double g = whole.gain[i];
+        const double m = mm.step(pw(x[i]));
+        if (m < 0) { st.ma_negative++; if (m < -2.220446049250313e-16) st.ma_below_minus_eps++; } else if (m == 0) st.ma_zero++;
+        auto at = [&] {
+            return "{" + json + ",\"index\":" + std::to_string(i) + ",\"x\":" + jv(x[i]) + ",\"gain\":" + vh::jnum(g) + ",\"out\":" + jv(whole.out[i]) +
+                   ",\"max_gain_lin\":" + vh::jnum(double(gmax)) + ",\"last_nonzero_input_index\":" + std::to_string(last_nonzero) +
+                   ",\"power_estimate_of_the_recurrent_sum\":" + vh::jnum(m) + "}";
+        };
+        if (pw(x[i]) != 0) last_nonzero = i;
+        if (!(std::isfinite(g) && g > 0)) {
+            if (!bad_nf) {
+                std::string w = at();
+                if (p.n <= 40) {   // self-contained replay: the moving average at `index` depends on the last < 2*average_len inputs only
+                    w.pop_back();
+                    w += ",\"inputs_before_and_at_index\":[";
+                    for (int k = std::max(0, i - 2 * p.n); k <= i; ++k) w += (k > std::max(0, i - 2 * p.n) ? "," : "") + jv(x[k]);
+                    w += "]}";
+                }
+                out.fail("C20:agc-gain-not-finite", w);
+            }
+            bad_nf = true;
+            continue;
+        }
+        const LD ratio = LD(g) / gmax;
+        st.worst_gain_ratio = std::max(st.worst_gain_ratio, ratio);
+        if (!(ratio <= 1 + TOL_REL)) { if (!bad_max) out.fail("C20:agc-gain-exceeds-max", at()); bad_max = true; }
+        if (ratio >= 1 - 1e-12L) st.at_cap++;
+        if (!is_x_times_gain(whole.out[i], x[i], g)) { if (!bad_out) out.fail("C20:out-not-x-times-gain:agc", at()); bad_out = true; }
+        st.min_gain = std::min(st.min_gain, g); st.max_gain = std::max(st.max_gain, g);
+    }
+    st.samples += n;
+    // the loop recovers: after whatever came first, a constant envelope is driven to the target power within 1 %
+    if (tail > 0 && n >= tail && LD(tail_amp) * tail_amp >= 1e-12L) {
+        const LD req_db = 10 * log10l(LD(p.target) / (LD(tail_amp) * tail_amp));
+        if (req_db < LD(p.mg) - 0.25L) {
+            st.level_checks++;
+            for (int i = n - 100; i < n; ++i) {
+                out.n_oracle++;
+                const LD rel = pwl(whole.out[i]) / LD(p.target);
+                if (rel == rel) st.worst_level_err = std::max(st.worst_level_err, fabsl(rel - 1));
+                if (!(rel >= 0.99L && rel <= 1.01L)) {
+                    out.fail("C20:agc-level", "{" + json + ",\"index\":" + std::to_string(i) + ",\"out_power\":" + vh::jnum(double(pwl(whole.out[i]))) + ",\"gain\":" + vh::jnum(whole.gain[i]) +
+                             ",\"tail_amplitude\":" + vh::jnum(tail_amp) + ",\"tail_samples\":" + std::to_string(tail) + ",\"required_gain_db\":" + vh::jnum(double(req_db)) + "}");
+                    break;
+                }
+            }
+        }
+    }
+    framing_and_copies<Agc>(r, "agc", [&] { return Agc(p.target, p.mg, p.n, p.trise, p.tfall); }, x, whole, json, st);
+    vh::clear_current();
+}
+
+static int agc_settle(const AP& p) { return 2 * p.n + int(std::ceil(14.0 / (2 * std::min(p.trise, p.tfall)))) + 200; }
+
+// signal = arbitrary part of `narb` samples (kind, scale) + constant-envelope tail
+static arr_real agc_signal(vh::Rng& r, const AP& p, int narb, int kind, double sc, int tail, double tail_amp) {
+    arr_real x(narb + tail);
+    fill_agc(r, x, 0, narb, kind, p.n, sc);
+    for (int i = narb; i < narb + tail; ++i) x[i] = r.coin() ? tail_amp : -tail_amp;
+    return x;
+}
+static AP rnd_agc(vh::Rng& r, int len) {
+    AP p{std::pow(10.0, -2 + 4 * r.unit()), 60.0, len, 0.01, 0.01};
+    const int k = r.range(0, 7);
+    if (k == 0) p.target = 0.01; else if (k == 1) p.target = 100; else if (k == 2) p.target = 1;
+    const int m = r.range(0, 9);
+    p.mg = m == 0 ? 0.0 : m == 1 ? -0.0 : m == 2 ? 1e-17 : m == 3 ? 400.0 : m == 4 ? -20.0 : m <= 6 ? 60.0 : 5 + 75 * r.unit();
+    if (r.range(0, 2) == 0) { p.trise = std::pow(10.0, -2.5 + 1.8 * r.unit()); p.tfall = std::pow(10.0, -2.5 + 1.8 * r.unit()); }
+    return p;
+}
+static void agc_arbitrary_case(vh::Rng& r, int len, int narb, int kind, double sc, bool cplx, int caseno, ArbStats& st) {
+    const AP p = rnd_agc(r, len);
+    const double tail_amp = dbamp(-60 + 80 * r.unit()) * (r.range(0, 4) == 0 && sc >= 1 ? sc : 1.0);
+    const int tail = r.range(0, 3) == 0 ? 0 : agc_settle(p);
+    const arr_real m = agc_signal(r, p, narb, kind, sc, tail, tail_amp);
+    const std::string json0 = std::string("\"signal\":\"") + AK_NAME[kind] + "\",\"scale\":" + vh::jnum(sc) + ",\"arbitrary_samples\":" + std::to_string(narb) + ",\"case\":" + std::to_string(caseno);
+    if (cplx) {
+        arr_cmplx z = to_cmplx(r, m);
+        agc_arbitrary(r, p, z, tail, tail_amp, json0, st);
+    } else agc_arbitrary(r, p, m, tail, tail_amp, json0, st);
+    out.stat(std::string("agc_arbitrary_signal_") + AK_NAME[kind]);
+}
+
+// CORR for the same classes (short: every sample; long: decimated)
+static void corr_agc_arbitrary(vh::Rng& r, int len, int n, int kind, double sc, bool cplx, int dec, int mask) {
+    AP p = rnd_agc(r, len);
+    arr_real m(n);
+    fill_agc(r, m, 0, n, kind, len, sc);
+    MaMirror mm(len);
+    long long neg = 0;
+    if (cplx) {
+        const arr_cmplx z = to_cmplx(r, m);
+        for (int i = 0; i < n; ++i) neg += mm.step(pw(z[i])) < -2.220446049250313e-16;
+        corr_agc_c(p, cut_frames(r, z, r.range(1, 4)), dec, mask);
+    } else {
+        for (int i = 0; i < n; ++i) neg += mm.step(pw(m[i])) < -2.220446049250313e-16;
+        corr_agc_r(p, cut_frames(r, m, r.range(1, 4)), dec, mask);
+    }
+    out.stat("corr_agc_arbitrary");
+    out.stat("corr_agc_arbitrary_power_estimate_below_minus_eps_samples", neg);
+    if (neg) out.stat("corr_agc_arbitrary_cases_with_negative_power_estimate");
+}
+
 // ------------------------------------------------------------------------------------ main
 int main(int argc, char** argv) {
     vh::Args a(argc, argv);
@@ -633,6 +964,19 @@ int main(int argc, char** argv) {
         }
     }
 
+    // ============================================================ CORR for class (E): AGC on arbitrary signals
+    {
+        const int NQ = th ? 180 : 36;      // short windows, every sample, all three selectors
+        for (int c = 0; c < NQ; ++c) {
+            const int len = c % 5 == 4 ? rng.range(1, 40) : FORCED_LEN[c % 4];   // 1, 2, 3, 7, random
+            corr_agc_arbitrary(rng, len, rng.range(20, 30 * len + 300), c % AK_KINDS, SCALES[(c / 3) % NSCALES], (c & 1) != 0, 1, (!th || c % 3 == 0) ? 7 : 5);
+        }
+        const int NLA = th ? 8 : 4;        // long windows, decimated
+        for (int c = 0; c < NLA; ++c)
+            corr_agc_arbitrary(rng, c % 2 ? 333 : (c % 4 == 0 ? 1000 : rng.range(100, 1000)), c % 2 ? 12000 : 20000, c < 4 ? AK_BURST_SILENCE + (c / 2) * 2 : c % AK_KINDS,
+                               c < 2 ? 1.0 : SCALES[c % NSCALES], (c & 1) != 0, 97, (c & 1) ? 4 : 5);
+    }
+
     // ============================================================ ORACLE (A)(B): arbitrary signals
     {
         const int NA = th ? 60 : 4;
@@ -748,6 +1092,99 @@ int main(int argc, char** argv) {
         out.stat("agc_cases_capped", st.capped);
         out.stat("agc_worst_level_err_ppm", (long long)(st.worst_level_err * 1e6L));
         out.stat("agc_worst_gain_over_max_e15_minus1", (long long)((st.worst_gain_ratio - 1) * 1e15L));
+    }
+
+    // ============================================================ ORACLE (E): AGC (and the other processors) on arbitrary signals
+    {
+        ArbStats st;
+        int caseno = 0;
+        // 1e5-sample signals: every signal class, real and complex, forced averaging lengths, every scale class
+        const int NBIG = th ? AK_KINDS * 2 * 6 : AK_KINDS * 2;
+        for (int c = 0; c < NBIG; ++c) {
+            const int kind = c % AK_KINDS;
+            const bool cplx = (c / AK_KINDS) & 1;
+            const int len = (c % 7 == 6) ? rng.range(1, 1000) : FORCED_LEN[(c + c / AK_KINDS) % 6];
+            const double sc = c < 6 ? 1.0 : SCALES[c % NSCALES];
+            agc_arbitrary_case(rng, len, 100000, kind, sc, cplx, caseno++, st);
+        }
+        // the witness class of the repaired defect, spelled out: Agc(1, 30, 3), 5000 samples randn*3.3, 3000 zeros, signal again
+        for (int rep = 0; rep < (th ? 40 : 6); ++rep) {
+            const AP p{1.0, 30.0, rep < 2 ? 3 : FORCED_LEN[rep % 6], 0.01, 0.01};
+            const int tail = agc_settle(p);
+            arr_real x(8000 + tail);
+            for (int i = 0; i < 5000; ++i) x[i] = 3.3 * rng.gauss();
+            for (int i = 5000; i < 8000; ++i) x[i] = 0.0;
+            for (int i = 8000; i < 8000 + tail; ++i) x[i] = rng.coin() ? 0.5 : -0.5;
+            const std::string j0 = "\"signal\":\"randn*3.3 (5000) + zeros (3000) + constant envelope\",\"case\":" + std::to_string(caseno++);
+            if (rep & 1) agc_arbitrary(rng, p, to_cmplx(rng, x), tail, 0.5, j0, st);
+            else agc_arbitrary(rng, p, x, tail, 0.5, j0, st);
+        }
+        // one call above 2^17 samples arriving after smaller ones (lesson 3), window 1000 and 7
+        for (int rep = 0; rep < (th ? 4 : 1); ++rep) {
+            const AP p = rnd_agc(rng, rep % 2 ? 7 : 1000);
+            const arr_real x = agc_signal(rng, p, 131072 + 4099, AK_MIX, 1.0, 0, 0.0);
+            Agc a(p.target, p.mg, p.n, p.trise, p.tfall), b(p.target, p.mg, p.n, p.trise, p.tfall);
+            arr_real f1(1500), f2(131072 + 1), f3(x.size() - f1.size() - f2.size());
+            for (int i = 0; i < f1.size(); ++i) f1[i] = x[i];
+            for (int i = 0; i < f2.size(); ++i) f2[i] = x[f1.size() + i];
+            for (int i = 0; i < f3.size(); ++i) f3[i] = x[f1.size() + f2.size() + i];
+            const auto w = a.process(x);
+            const auto r1 = b.process(f1); const auto r2 = b.process(f2); const auto r3 = b.process(f3);
+            bool same = true;
+            for (int i = 0; i < x.size() && same; ++i) {
+                const double g = i < f1.size() ? r1.gain[i] : i < f1.size() + f2.size() ? r2.gain[i - f1.size()] : r3.gain[i - f1.size() - f2.size()];
+                out.n_oracle++;
+                if (!same_bits(g, w.gain[i])) { same = false; out.fail("C20:framing:agc", "{" + js(p) + ",\"frames\":[1500,131073," + std::to_string(f3.size()) + "],\"index\":" + std::to_string(i) + "}"); }
+            }
+            st.big_frames++;
+            agc_arbitrary(rng, p, x, 0, 0.0, "\"signal\":\"mix\",\"case\":" + std::to_string(caseno++), st);
+        }
+        // shorter signals over many (length, class, scale, real/complex) combinations
+        const int NSH = th ? 4000 : 320;
+        for (int c = 0; c < NSH; ++c) {
+            const int len = c % 3 == 0 ? FORCED_LEN[(c / 3) % 6] : rng.range(1, c % 3 == 1 ? 30 : 1000);
+            agc_arbitrary_case(rng, len, rng.range(0, 3) == 0 ? rng.range(0, 50) : rng.range(2 * len, 2 * len + 6000), c % AK_KINDS, SCALES[(c / AK_KINDS) % NSCALES], (c & 1) != 0, caseno++, st);
+        }
+        out.stat("agc_arbitrary_cases", st.cases);
+        out.stat("agc_arbitrary_samples", st.samples);
+        out.stat("agc_arbitrary_power_estimate_negative_samples", st.ma_negative);
+        out.stat("agc_arbitrary_power_estimate_below_minus_eps_samples", st.ma_below_minus_eps);
+        out.stat("agc_arbitrary_power_estimate_zero_samples", st.ma_zero);
+        out.stat("agc_arbitrary_samples_at_max_gain", st.at_cap);
+        out.stat("agc_arbitrary_level_checks_after_recovery", st.level_checks);
+        out.stat("agc_arbitrary_worst_level_err_ppm", (long long)(st.worst_level_err * 1e6L));
+        out.stat("agc_arbitrary_worst_gain_over_max_e15_minus1", (long long)((st.worst_gain_ratio - 1) * 1e15L));
+        out.stat("agc_arbitrary_min_gain_log10_x100", st.min_gain > 0 && st.min_gain < 1e300 ? (long long)(100 * std::log10(st.min_gain)) : 0);
+        out.stat("agc_arbitrary_copies_mid_stream", st.copies);
+        out.stat("agc_arbitrary_frames", st.frames);
+        out.stat("agc_frames_above_2pow17", st.big_frames);
+
+        // the same signal classes through Compressor / Limiter / NoiseGate
+        DynStats sc, sl;
+        const int ND = th ? 2 * AK_KINDS * NSCALES : AK_KINDS;
+        for (int c = 0; c < ND; ++c) {
+            const int kind = c % AK_KINDS, navg = FORCED_LEN[c % 6] * 3 + 1;
+            const double scale = SCALES[(c / 2) % NSCALES];
+            const int n = c < (th ? 12 : 3) ? 100000 : 12000;
+            const std::string name = std::string(AK_NAME[kind]) + "@" + vh::jnum(scale);
+            arr_real x(n);
+            fill_agc(rng, x, 0, n, kind, navg, scale);
+            CP p = rnd_cp(rng);
+            arbitrary_dyn_x(rng, "compressor", p, 1.0L / p.R, [&] { return Compressor(p.fs, p.T, p.R, p.W, p.ta, p.tr); }, x, name, sc, 5000 + c);
+            LP q = rnd_lp(rng);
+            if (c % 3 != 2) q.ta = 0;   // the ceiling clause
+            fill_agc(rng, x, 0, n, (kind + 1) % AK_KINDS, navg, scale);
+            arbitrary_dyn_x(rng, "limiter", q, 0.0L, [&] { return Limiter(q.fs, q.T, q.W, q.ta, q.tr); }, x, name, sl, 5000 + c);
+            GP g = rnd_gp(rng);
+            if (c % 2) { g.ta = std::pow(10.0, -4 + 2 * rng.unit()); g.tr = std::pow(10.0, -4 + 2 * rng.unit()); g.th = 0.01 * rng.unit(); }
+            fill_agc(rng, x, 0, n, (kind + 2) % AK_KINDS, navg, scale);
+            arbitrary_gate_x(rng, g, x, name, 5000 + c);
+        }
+        out.stat("dyn_scaled_signal_cases", 3 * ND);
+        out.stat("dyn_copies_mid_stream", dyn_arb().copies);
+        out.stat("dyn_frames", dyn_arb().frames);
+        out.stat("limiter_scaled_max_out_over_ceiling_e15_minus1", (long long)((sl.max_ceiling_ratio - 1) * 1e15L));
+        out.stat("scaled_max_smoothing_residual_db_e15", (long long)(std::max(sc.max_tc_err, sl.max_tc_err) * 1e15L));
     }
 
     // informative probe, NOT part of the oracle (outside the stated quantifier 0..4 s only by the sign bit):
